@@ -5,8 +5,11 @@ file x settings and every iteration of the fix loop up to the fixpoint; the real
 (NameCheckVisitor(add_ignores=True).check_for_test(apply_changes=True), re-run on its own output) is
 driven on the realised files and its Begin/Iter/End event stream validated by TLC (FixLoopTrace.tla).
 
-Part B (replacement fixes: missing_f, use_fstrings, unused_variable, too_many_positional_args, unused_ignore) is
-spec/FixReplace.tla + FixReplaceTrace.tla, driven by c16b.py.
+Part B (replacement fixes: missing_f, use_fstrings, unused_variable, too_many_positional_args, unused_ignore,
+missing_await, unused comprehension variable) is spec/FixReplace.tla + FixReplaceTrace.tla, driven by c16b.py.
+
+Part C (the fixes as operations on the TEXT: line range of the rewritten statement, the lines around it, where an
+ignore comment is inserted) is spec/FixLayout.tla + FixLayoutTrace.tla, driven by c16c.py.
 """
 from __future__ import annotations
 
@@ -158,6 +161,10 @@ def run(check: core.Check) -> None:
     from . import c16b
 
     c16b.run_part_b(check, quick)
+    # part C: fixes as operations on the text (line ranges, neighbouring lines, ignore insertion)
+    from . import c16c
+
+    c16c.run_part_c(check, quick)
 
 
 def replay(check: core.Check, witness: dict) -> None:
@@ -165,5 +172,10 @@ def replay(check: core.Check, witness: dict) -> None:
         from . import c16b
 
         c16b.replay_part_b(check, witness)
+        return
+    if witness["case"].get("part") == "layout":
+        from . import c16c
+
+        c16c.replay_part_c(check, witness)
         return
     judge(check, [witness["case"]], "replay")
